@@ -1,0 +1,54 @@
+//go:build verif
+
+package routing
+
+// Hooks for the out-of-tree verification harness (build tag verif), spray-and-wait garbage
+// collection (C18). Add-only. The periodic GarbageCollect asks the store about every metadata
+// entry, so its duration grows with the number of entries. The harness fills the metadata map
+// with leftovers of bundles the store does not know (as expired bundles leave them behind until
+// the next collection) to make a collection long enough to overlap it with forwarding.
+
+import (
+	"fmt"
+
+	"github.com/dtn7/dtn7-go/pkg/bpv7"
+)
+
+// VerifSprayAddLeftovers adds n metadata entries of bundles unknown to the store (source
+// dtn://leftover<tag>/, sequence numbers 1..n) and returns how many entries the map holds then.
+func (c *Core) VerifSprayAddLeftovers(tag int, n int) int {
+	src := bpv7.MustNewEndpointID(fmt.Sprintf("dtn://leftover%d/", tag))
+	add := func(m map[bpv7.BundleID]sprayMetaData) int {
+		for i := 1; i <= n; i++ {
+			bid := bpv7.BundleID{SourceNode: src, Timestamp: bpv7.NewCreationTimestamp(bpv7.DtnTime(1000), uint64(i))}
+			m[bid] = sprayMetaData{sent: make([]bpv7.EndpointID, 0), remainingCopies: 1}
+		}
+		return len(m)
+	}
+	switch a := c.routing.(type) {
+	case *SprayAndWait:
+		a.dataMutex.Lock()
+		defer a.dataMutex.Unlock()
+		return add(a.bundleData)
+	case *BinarySpray:
+		a.dataMutex.Lock()
+		defer a.dataMutex.Unlock()
+		return add(a.bundleData)
+	}
+	return 0
+}
+
+// VerifSprayMetaCount returns the number of metadata entries.
+func (c *Core) VerifSprayMetaCount() int {
+	switch a := c.routing.(type) {
+	case *SprayAndWait:
+		a.dataMutex.RLock()
+		defer a.dataMutex.RUnlock()
+		return len(a.bundleData)
+	case *BinarySpray:
+		a.dataMutex.RLock()
+		defer a.dataMutex.RUnlock()
+		return len(a.bundleData)
+	}
+	return 0
+}
